@@ -566,7 +566,8 @@ def rule_float_notation(cx, tier):
     """R-FLOAT-NOTATION: floats reach text through Display, never through a notation-switching formatter."""
     import re
     r = RuleResult("R-FLOAT-NOTATION",
-                   "no f64 / f32 is handed to `{:?}`, `{:e}` or `{:E}` in the runtime, core library, CLI or serde crates: "
+                   "no f64 / f32 is handed to `{:?}` (anywhere outside Debug impls) or to `{:e}` / `{:E}` (in a Display impl) in the "
+                   "runtime, core library, CLI or serde crates: "
                    "f64's Debug switches to scientific notation below 1e-4 and from 1e16 up, Display (with or without a "
                    "precision) never does, and the language prints numbers in positional notation")
     CRATES = ("koto_runtime", "koto", "koto_serde", "koto_json", "koto_yaml", "koto_toml", "koto_cli", "koto_parser")
@@ -587,6 +588,10 @@ def rule_float_notation(cx, tier):
                     floats += 1
                 continue
             seen += 1
+            # `{:e}` / `{:E}` are what a format spec's ExpLower / ExpUpper representation asks for; they are wrong only
+            # where plain rendering is meant: in a Display impl
+            if kind != "new_debug" and " as Display>" not in fn.qual:
+                continue
             if ty in ("f64", "f32"):
                 r.instances += 1
                 r.nontrivial += 1
